@@ -20,7 +20,8 @@ import (
 //
 // Case: kind, cmd.  kind: "fg" Add, "bg" AddBg, "tmp" AddTmp (cmd = the command they are
 // registered for); "cw" CTCP.Set("*"), "cw+" the same with a harmless handler for the queried
-// CTCP command as well, "cs" CTCP.Set(cmd) (cmd = the CTCP command queried).  The handler
+// CTCP command as well, "cs" CTCP.Set(cmd) (cmd = the CTCP command queried); "cwb", "cwb+",
+// "csb" the same with CTCP.SetBg (the handler runs in a goroutine of its own).  The handler
 // always panics; a wildcard recorder is registered; RecoverFunc is installed; two events are
 // run (for the CTCP kinds: two CTCP queries).  The statement: the panic does not stop later
 // events from being delivered (and the recover function is told).  An unrecovered panic in a
@@ -76,14 +77,19 @@ func panicDirect(c Case) Result {
 			}
 			return false
 		})
-	case "cw", "cw+", "cs":
+	case "cw", "cw+", "cs", "cwb", "cwb+", "csb":
 		ev = &girc.Event{Source: src, Command: "PRIVMSG", Params: []string{"me", "\x01" + strings.ToUpper(cmd) + " arg\x01"}}
-		if kind == "cs" {
+		switch kind {
+		case "cs":
 			cl.CTCP.Set(cmd, func(_ *girc.Client, _ girc.CTCPEvent) { boom() })
-		} else {
+		case "csb":
+			cl.CTCP.SetBg(cmd, func(_ *girc.Client, _ girc.CTCPEvent) { boom() })
+		case "cwb", "cwb+":
+			cl.CTCP.SetBg("*", func(_ *girc.Client, _ girc.CTCPEvent) { boom() })
+		default:
 			cl.CTCP.Set("*", func(_ *girc.Client, _ girc.CTCPEvent) { boom() })
 		}
-		if kind == "cw+" {
+		if kind == "cw+" || kind == "cwb+" {
 			cl.CTCP.Set(cmd, func(_ *girc.Client, _ girc.CTCPEvent) {})
 		}
 	default:
@@ -185,17 +191,17 @@ func init() {
 					out = append(out, Case{k, cmd})
 				}
 			}
-			for _, k := range []string{"cw", "cw+", "cs"} {
+			for _, k := range []string{"cw", "cw+", "cs", "cwb", "cwb+", "csb"} {
 				for _, cmd := range []string{"C06Q", "version"} {
 					out = append(out, Case{k, cmd})
 				}
 			}
 			return out
 		},
-		Exhaustive: "every kind of handler (Add, AddBg, AddTmp on a command and on the wildcard; CTCP.Set on the wildcard with and without a handler for the queried command, CTCP.Set on the command) panicking with a recover function installed",
+		Exhaustive: "every kind of handler (Add, AddBg, AddTmp on a command and on the wildcard; CTCP.Set and CTCP.SetBg on the wildcard with and without a handler for the queried command and on the command) panicking with a recover function installed",
 		Gen: func(r *rand.Rand) Case {
 			if r.Intn(2) == 0 {
-				return Case{Pick(r, "cw", "cw+", "cs"), Pick(r, "C06Q", "Ping", "TIME", "c06x")}
+				return Case{Pick(r, "cw", "cw+", "cs", "cwb", "cwb+", "csb"), Pick(r, "C06Q", "Ping", "TIME", "c06x")}
 			}
 			return Case{Pick(r, "fg", "bg", "tmp"), Pick(r, "FOO", "Foo", "bar", "*", "PRIVMSG", "notice")}
 		},
